@@ -47,7 +47,8 @@
       case (so the gap is tested on every run, not assumed).  Half of the obligation IS proved
       ([C03_validated_type_conditions_composite]: type conditions of an accepted text are composite,
       so the executor's panic("unexpected fragment type") is unreachable); the other half (typing of
-      the collected fields, [validate_establishes_sels_ok], spelled out below; the root type too is proved) is the explicit
+      the collected fields; since round 4 exactly the invariant [validate_establishes_invariant] with
+      its two missing lemmas, spelled out below; root type, argument coercion and acyclicity are proved) is the explicit
       premise of [C03_validate_establishes_doc_ok_partial] / [C03_pipeline_response_partial]: with
       it, every request with evaluable conditions gets a response.
     - [doc_ok] contains C01's hypothesis that every @skip/@include condition has a boolean value.
@@ -63,7 +64,7 @@ From Coq Require Import List NArith.
 From ApiFu Require Import Base.Sexp.
 From ApiFu Require Syn.Ast Syn.ParserModel Syn.FrontEnd Vld.Ast Vld.ValidatorModel Vld.ProofsCommon Val.Values ExeA.ArgData ExeA.ArgArgs ExeA.ArgModel ExeA.ArgSpec ExeA.ArgHyps.
 From ApiFu Require Vld.MemoEquiv.
-From ApiFu Require Import Pipe.PipelineModel Pipe.PipelineProofs Pipe.Convert Pipe.Compose Pipe.SchemaAgree Pipe.PositionsProofs Pipe.FieldPositions Pipe.ComposeProofs Pipe.CondsProofs Pipe.TypingProofs Pipe.CostCompose Pipe.CostComposeProofs.
+From ApiFu Require Import Pipe.PipelineModel Pipe.PipelineProofs Pipe.Convert Pipe.Compose Pipe.SchemaAgree Pipe.PositionsProofs Pipe.FieldPositions Pipe.ComposeProofs Pipe.CondsProofs Pipe.TypingProofs Pipe.CostCompose Pipe.CostComposeProofs Pipe.AcyclicProofs Pipe.InvariantProofs.
 Import ListNotations.
 
 (** ** the composed model, from bytes *)
@@ -202,37 +203,60 @@ Theorem C03_argument_coercion_never_unsupported : forall ES D ot f,
   cost_schema_accepted ES = true -> ExeA.ArgSpec.args_total ES D ot f = true.
 Proof. exact args_total_closed. Qed.
 
-(** NOT PROVED — the remaining obligation, exactly [sels_ok]: conjuncts (d) - (i) of the list in
-    the header of Properties/C01.v.
-    [validate_establishes_sels_ok pi VS F ES] :=
+(** PROVED (round 4): acyclicity, transported.  An accepted text has no fragment that reaches itself
+    in the executor's encoding, for every operation and all variable values (C04's silent cycle rule
+    in the Spec's formulation across both conversions) — the hypothesis of C01_doc_ok_acyclic /
+    C01_acyclic_levels: the fuel and level part of [doc_ok] (conjuncts (d) and the depth of (i)) is
+    thereby discharged *)
+Theorem C03_accepted_acyclic : forall pi VS F bs d o vv,
+  Vld.ProofsCommon.order_ok pi ->
+  parse_and_validate_order pi VS F bs = FAccepted d ->
+  ExeA.ArgHyps.acyclic_frags (ExeA.ArgData.doc_of (exe_of_syn d) o vv).
+Proof. exact accepted_acyclic. Qed.
+
+(** NOT PROVED — the remaining obligation, exactly the n-free invariant Q of C01_doc_ok_acyclic,
+    split into the two lemmas that are missing (Pipe/InvariantProofs.v):
+    [validate_establishes_invariant pi VS F ES] :=
       forall bs d opname o vv rt,
         parse_and_validate_order pi VS F bs = FAccepted d ->
         get_operation (exe_of_syn d) opname = GOp o ->
         let D := doc_of (exe_of_syn d) o vv in  let E := env_of_vars vv in
         dirs_evaluable D E = true -> s_root_type ES (op_kind D) = Some rt ->
-        sels_ok ES D E (default_fuel D) (default_fuel D) rt (op_sels D) = true.
-    Status of its conjuncts: (d) fuel and (e) non-empty groups are C01's own lemmas
-    (C01_collect_fuel_sufficient); (g) [args_total] is proved above; (f) needs the step from C04's [fields_defined] (fields defined on the static parent type:
-    C04_accepted_doc_ok_conjuncts) to every possible object type, (h) output types is schema
-    construction; (i), the recursion into the MERGED sub-selections of a group, types them against
-    the FIRST field node's type and therefore needs 5.3.2 (fields of one response key have the same
-    name and shape), whose model-vs-Spec equivalence C04 has not proved.
+        exists Q, Q rt (op_sels D) /\ fields_defined_on ES D E Q /\ merge_sound ES D E Q.
+    [Q ot sels]: "[sels] is a validated selection list for an object of type [ot]".
+    [fields_defined_on] — THE POSSIBLE-OBJECT-TYPE STEP: for [Q ot sels], CollectFields(ot, sels) is
+      defined and the first field node of every group is __typename, a meta-field of the query
+      root, or a field defined ON [ot] with an output type (C04 has "defined on the static parent
+      type": C04_validate_ok_doc_ok_partial (f); missing: from the parent type to every possible
+      object type, through the type conditions CollectFields evaluates);
+    [merge_sound] — MERGE SOUNDNESS (rule 5.3.2): for a group of a composite field type the MERGED
+      sub-selections of all its field nodes satisfy [Q] again for every possible object type of the
+      FIRST node's field type (the C04 builder's C04_accepted_merge_sound).
+    Nothing else is open: acyclicity / levels / fuel (above, with C01_doc_ok_acyclic), type
+    conditions (a), root type (c), argument coercion (g) are proved.  The premise is exactly as
+    strong as needed: [doc_ok] itself yields such a Q (C03_invariant_from_doc_ok).
     The composed model evaluates [doc_ok] on every run instead (outcome [PContractBroken CDocOk],
     an oracle failure of the check).  With it, [validate_establishes_doc_ok] follows ... *)
 Theorem C03_validate_establishes_doc_ok_partial : forall pi VS F ES,
-  Vld.ProofsCommon.order_ok pi -> schemas_agree VS ES = true ->
-  validate_establishes_sels_ok pi VS F ES -> validate_establishes_doc_ok pi VS F ES.
-Proof. exact doc_ok_from_sels_ok. Qed.
+  Vld.ProofsCommon.order_ok pi -> schemas_agree VS ES = true -> cost_schema_accepted ES = true ->
+  validate_establishes_invariant pi VS F ES -> validate_establishes_doc_ok pi VS F ES.
+Proof. exact doc_ok_from_invariant. Qed.
+
+Theorem C03_invariant_from_doc_ok : forall ES D E n rt,
+  ExeA.ArgSpec.s_root_type ES (ExeA.ArgData.op_kind D) = Some rt ->
+  ExeA.ArgSpec.doc_ok ES D E (ExeA.ArgModel.default_fuel D) n = true ->
+  exists Q, Q rt (ExeA.ArgData.op_sels D) /\ fields_defined_on ES D E Q /\ merge_sound ES D E Q.
+Proof. exact invariant_from_doc_ok. Qed.
 
 (** ... and every request with evaluable conditions whose text keeps positions below line 2^24 /
     column 2^32 ([text_positions_small]) gets a response: no broken contract is left *)
 Theorem C03_pipeline_response_partial : forall pi VS F ES bs opname raw W,
   Vld.ProofsCommon.order_ok pi ->
-  schema_accepted ES = true -> schemas_agree VS ES = true ->
-  validate_establishes_sels_ok pi VS F ES -> text_positions_small bs ->
+  schema_accepted ES = true -> cost_schema_accepted ES = true -> schemas_agree VS ES = true ->
+  validate_establishes_invariant pi VS F ES -> text_positions_small bs ->
   request_evaluable pi VS F ES bs opname raw ->
   is_response (pipeline_order pi VS F ES bs opname raw W) = true.
-Proof. exact pipeline_response_if_sels_ok. Qed.
+Proof. exact pipeline_response_if_invariant. Qed.
 
 (** ** the cost rule inside the composition.
     [parse_validate_cost pi VS F ES bs opname raw r max] (Pipe/CostCompose.v) is
@@ -286,7 +310,9 @@ Print Assumptions C03_composite_condition_never_unexpected.
 Print Assumptions C03_validated_root_type_exists.
 Print Assumptions C03_parsed_field_positions_distinct.
 Print Assumptions C03_argument_coercion_never_unsupported.
+Print Assumptions C03_accepted_acyclic.
 Print Assumptions C03_validate_establishes_doc_ok_partial.
+Print Assumptions C03_invariant_from_doc_ok.
 Print Assumptions C03_pipeline_response_partial.
 Print Assumptions C03_validate_with_cost_never_crashes.
 Print Assumptions C03_execute_total_partial.
